@@ -257,7 +257,12 @@ inline void swap_coroutine(coroutine_type& prev_coroutine, coroutine_type& new_c
     std::unique_lock<std::mutex> lock(prev_coroutine.my_mutex);
     prev_coroutine.my_condvar.wait(lock, [&prev_coroutine] { return prev_coroutine.my_is_active == true; });
     __TBB_ASSERT(governor::get_thread_data() != nullptr, nullptr);
-    governor::set_thread_data(*prev_coroutine.my_thread_data);
+    if (prev_coroutine.my_thread_data) {
+        governor::set_thread_data(*prev_coroutine.my_thread_data);
+    } else {
+        // Woken by destroy_coroutine: there is no thread data to attach
+        governor::clear_thread_data();
+    }
 }
 
 inline void destroy_coroutine(coroutine_type& c) {
